@@ -50,7 +50,6 @@
 
 
 import ast
-import functools as ft
 import hashlib
 import sys
 from collections.abc import Sequence
@@ -59,7 +58,6 @@ from importlib.machinery import SourceFileLoader
 from importlib.util import cache_from_source, decode_source
 from inspect import isclass
 from typing import Optional, Union
-from unittest.mock import patch
 
 
 # The name of this function is magical
@@ -220,18 +218,31 @@ class _JaxtypingLoader(SourceFileLoader):
             compile, tree, path, "exec", dont_inherit=True, optimize=_optimize
         )
 
-    def get_code(self, fullname):
-        # Use a custom optimization marker - the import lock should make this monkey
-        # patch safe.
-        # Only whilst obtaining this module's own code: if the patch were held whilst
-        # the module executes, then every module imported from within it (hooked or
-        # not) would have its bytecode read from and written to this loader's cache
-        # file name.
-        with patch(
-            "importlib._bootstrap_external.cache_from_source",
-            ft.partial(_optimized_cache_from_source, self._typechecker.get_hash()),
-        ):
-            return super().get_code(fullname)
+    # Use a custom optimization marker for the bytecode cache. `get_code` reads the
+    # cached bytecode through `get_data` and writes it through `_cache_bytecode`, so
+    # those two are redirected to this loader's own cache file.
+    # (This used to be done by monkey-patching
+    # `importlib._bootstrap_external.cache_from_source` around `get_code`. That is not
+    # safe: imports are only locked per module, so a module imported by another thread
+    # at the same time had its bytecode read from and written to our cache file name
+    # as well -- and two overlapping patches could restore each other's replacement.)
+    def _jaxtyping_cache(self, source_path):
+        return _optimized_cache_from_source(
+            self._typechecker.get_hash(), source_path
+        )
+
+    def get_data(self, path):
+        try:
+            if path == cache_from_source(self.path):
+                path = self._jaxtyping_cache(self.path)
+        except (NotImplementedError, ValueError):
+            pass
+        return super().get_data(path)
+
+    def _cache_bytecode(self, source_path, bytecode_path, data):
+        return super()._cache_bytecode(
+            source_path, self._jaxtyping_cache(source_path), data
+        )
 
 
 class _JaxtypingFinder(MetaPathFinder):
